@@ -345,7 +345,8 @@ def check(prog, res, tier):
            f'encoder handles {sorted(map(str, t_enc))} (date default {sorted(map(str, f_enc))}), decoder handles {sorted(map(str, t_dec))} '
            f'(date default {sorted(map(str, f_dec))}); required {sorted(DOC_TAGS | used)}',
            {'encoder': str(sorted(map(str, t_enc))), 'decoder': str(sorted(map(str, t_dec)))},
-           undecided=None if t_enc and t_dec else 'no type dispatch observed')
+           undecided=None if t_enc and t_dec and (f_enc or not f_dec) and (f_dec or not f_enc) else
+           'the type dispatch or the date format look-up of one direction was not observed')
     res.add(ob)
 
     # ---- C01.e processors
